@@ -15,7 +15,8 @@ Definition check_format_case (c : list tok * list Z) : bool :=
 Definition check_format_cases (cs : list (list tok * list Z)) : list Z :=
   failing check_format_case cs.
 
-(* exhaustive spaceAfterToken table: order subject, before, after, in-flag *)
+(* exhaustive spaceAfterToken table: order subject, before, after, then four byte variants:
+   subject "x"/"in" with after "z", subject "x" with after "e5", subject "in" with after "E0x" *)
 Definition mk (ty : Z) (bs : list Z) : tok := {| ty := ty; bytes := bs; gcols := 1; sp := 0 |}.
 
 Definition space_table (types : list Z) : list bool :=
@@ -23,7 +24,12 @@ Definition space_table (types : list Z) : list bool :=
   flat_map (fun b =>
   flat_map (fun a =>
     [ space_after (mk s [120]) (mk b [121]) (mk a [122]);
-      space_after (mk s [105; 110]) (mk b [121]) (mk a [122]) ]) types) types) types.
+      space_after (mk s [105; 110]) (mk b [121]) (mk a [122]);
+      space_after (mk s [120]) (mk b [121]) (mk a [101; 53]);            (* after = "e5" *)
+      space_after (mk s [105; 110]) (mk b [121]) (mk a [69; 48; 120]);   (* after = "E0x" *)
+      space_after (mk s [120]) (mk b [121]) (mk a [101; 45; 53]);        (* after = "e-5" *)
+      space_after (mk s [120]) (mk b [121]) (mk a [101; 45; 120]) ]      (* after = "e-x" *)
+  ) types) types) types.
 
 Fixpoint bits_of_string (s : string) : list bool :=
   match s with
